@@ -17,6 +17,8 @@ enum Case {
     ShuffleIsPermutation { seed: u64, data: Vec<u8> },
     /// shuffle statistics over `seeds` random 64-bit seeds derived from `base`
     ShuffleFair { len: u8, seeds: u32, base: u64 },
+    /// shuffle statistics over the arithmetic seed family `start, start+stride, ...` (stride 1 = consecutive seeds)
+    ShuffleFairFamily { len: u8, seeds: u32, start: u64, stride: u64 },
     /// 8192 draws from next(0..len) (len = 0 means the full u8 range `..`), no period <= 2048
     Period { len: u16, seed: u64 },
     Reach { ty: u8, start: i16, len: u8 },
@@ -207,12 +209,16 @@ fn perm_index(p: &[u8]) -> usize {
 }
 
 fn shuffle_fair(len: u8, seeds: u32, base: u64) -> CaseResult {
+    let mut sm = SplitMix(base);
+    shuffle_fair_over(len, seeds, "random 64-bit", move |_| sm.next())
+}
+
+fn shuffle_fair_over(len: u8, seeds: u32, what: &str, mut seed_of: impl FnMut(u64) -> u64) -> CaseResult {
     let n = len as usize;
     let fact: usize = (1..=n).product();
     let mut counts = vec![0u32; fact];
-    let mut sm = SplitMix(base);
-    for _ in 0..seeds {
-        let mut r = Rng::from_seed(sm.next());
+    for k in 0..seeds {
+        let mut r = Rng::from_seed(seed_of(k as u64));
         let mut v: Vec<u8> = (0..len).collect();
         r.shuffle(&mut v);
         counts[perm_index(&v)] += 1;
@@ -221,8 +227,8 @@ fn shuffle_fair(len: u8, seeds: u32, base: u64) -> CaseResult {
     vensure!(
         reached == fact,
         "shuffle/unreachable-permutations",
-        "shuffling {} elements with {} random 64-bit seeds reached only {} of {} permutations",
-        n, seeds, reached, fact
+        "shuffling {} elements with {} {} seeds reached only {} of {} permutations",
+        n, seeds, what, reached, fact
     );
     let exp = seeds as f64 / fact as f64;
     let chi2: f64 = counts.iter().map(|&c| (c as f64 - exp).powi(2) / exp).sum();
@@ -231,8 +237,8 @@ fn shuffle_fair(len: u8, seeds: u32, base: u64) -> CaseResult {
     vensure!(
         chi2 < limit,
         "shuffle/chi2",
-        "shuffling {} elements over {} random seeds: chi^2 = {:.1} with {} degrees of freedom (limit {:.1}); frequencies are far from equal",
-        n, seeds, chi2, dof, limit
+        "shuffling {} elements over {} {} seeds: chi^2 = {:.1} with {} degrees of freedom (limit {:.1}); frequencies are far from equal",
+        n, seeds, what, chi2, dof, limit
     );
     let mut st = CaseStats::default();
     st.nontrivial = true;
@@ -324,6 +330,13 @@ fn run_case(c: &Case) -> CaseResult {
             }
             shuffle_fair(*len, *seeds, *base)
         }
+        Case::ShuffleFairFamily { len, seeds, start, stride } => {
+            if *len < 2 || *len > 8 {
+                return Ok(CaseStats::default());
+            }
+            let (start, stride) = (*start, *stride);
+            shuffle_fair_over(*len, *seeds, &format!("seeds {} + k*{}", start, stride), move |k| start.wrapping_add(k.wrapping_mul(stride)))
+        }
         Case::Period { len, seed } => period(*len, *seed),
         Case::Reach { ty, start, len } => reach(*ty, *start, *len),
     }
@@ -402,7 +415,7 @@ fn main() {
          reachability - every 8-bit range of length <= 64 at every start: each value is produced by some raw output from a candidate set \
          that does not assume the mapping; (c) floats - finite half-open f64 ranges (tiny, huge, overflowing end-start, subnormal, ulp-wide, \
          negative) crossed with the raw set: start <= x < end; (d) determinism - equal seeds and Copy/Clone'd generators give equal mixed \
-         streams; (e) shuffle - output is a permutation of the input (slices <= 200); for lengths 2..=6 over 2*10^5 random 64-bit seeds \
+         streams; (e) shuffle - output is a permutation of the input (slices <= 200); for lengths 2..=6 over 2*10^5 random 64-bit seeds, and over 2*10^5 consecutive seeds and arithmetic seed families of stride 1000, 1000003, 2^16, 2^20, \
          every permutation is reached and chi^2 < dof + 8*sqrt(2*dof) + 30; (f) 8192 consecutive draws from 0..len (len in \
          2,3,4,8,16,64,256 and the full u8 range) have no period <= 2048, for 16+ seeds. Non-trivial: (a) range length not a power of two, \
          (c) raw >= 2^53, others always. Distinct = distinct (sub-check, case); the exhaustive 8-bit block is counted as enumerated tuples.",
@@ -477,6 +490,15 @@ fn main() {
     let mut base = ctx.sub_rng("shuffle-fair");
     let fair: Vec<Case> = (2..=maxlen).map(|len| Case::ShuffleFair { len, seeds: if len == 7 { nseeds.max(1_500_000) } else { nseeds }, base: base.next() }).collect();
     ctx.exhaustive("shuffle-fair", "rand-case", "lengths 2..=6 (7 in the thorough tier), random 64-bit seeds", false, fair, run_case);
+    // the seeds people actually use: consecutive small numbers and arithmetic families. (Families that vary only bits >= 30 of the
+    // seed are not a population of 10^5 seeds for an LCG - its low state bits never see them - and are not judged: DESIGN 9.7.)
+    let mut fam = Vec::new();
+    for len in 2..=6u8 {
+        for (start, stride) in [(0u64, 1u64), (base.next() >> 20, 1), (1, 1000), (base.next() >> 32, 1_000_003), (7, 1 << 16), (base.next() >> 24, 1 << 20)] {
+            fam.push(Case::ShuffleFairFamily { len, seeds: nseeds, start, stride });
+        }
+    }
+    ctx.exhaustive("shuffle-fair-seed-families", "rand-case", "lengths 2..=6 x {consecutive seeds from 0 and from a generated start, strides 1000, 1000003, 2^16, 2^20}", false, fam, run_case);
     // (f)
     let mut pr = ctx.sub_rng("period");
     let mut seeds: Vec<u64> = vec![0, 1, 42, u64::MAX];
